@@ -106,7 +106,7 @@ Proof.
     + cbn [inee] in Hn. rewrite app_length in Hn. lia.
   - intros [(Hne & Hfind & Hit) _]. right. pose proof (tk_need_ge start (cb ++ y)) as Hn.
     destruct (Hit y) as (m & _ & Hm). rewrite Hm in Hn. destruct cb as [|a cb']; [congruence|].
-    unfold unq_item in Hn. cbn [app tl] in Hn, Hfind. rewrite (find_from_none_app _ cb' y 0 Hfind) in Hn.
+    unfold unq_item in Hn. cbn [app tl] in Hn, Hfind |- *. rewrite (find_from_none_app _ cb' y 0 Hfind) in Hn.
     destruct (find_from is_boundary y (0 + length cb')) as [k|] eqn:Ey.
     + apply find_from_bounds in Ey. cbn [bump_item inee] in Hn. cbn [length]. lia.
     + cbn [bump_item inee length] in Hn. rewrite app_length in Hn. cbn [length]. lia.
@@ -142,4 +142,210 @@ Proof.
   destruct cb as [|c s0]; [discriminate|]. cbn [item].
   destruct (is_ws c); [discriminate|]. destruct (b_is c 35) eqn:E35; [|reflexivity].
   destruct (find_from _ s0 0); discriminate.
+Qed.
+
+Lemma snd_bump m p : snd p <= snd (bump m p).
+Proof. unfold bump. cbn [snd]. lia. Qed.
+Lemma fst_bump m p : fst (bump m p) = fst p.
+Proof. reflexivity. Qed.
+
+Lemma capok_mono b d b' d' n n' :
+  capok b d n -> cap b' = cap b -> n' <= n -> (rest d = [] -> rest d' = []) -> capok b' d' n'.
+Proof. intros [[H1 H2]|[H1 H2]] Hc Hn Hr; [left; rewrite Hc; auto|right; rewrite Hc; split; lia]. Qed.
+
+(* ---------- next_opt_refill ---------- *)
+Theorem refill_spec input : forall nrest fuel r st c o start',
+  length (rest (rrd r)) <= nrest -> nrest + 2 <= fuel ->
+  rok input r -> c <= length (win (rbw r)) ->
+  pend st start' (skipn (length (win (rbw r)) - c) (win (rbw r))) o ->
+  (st = PNone -> start' = Nat.eqb (reader_position r + (length (win (rbw r)) - c)) 0 && N.eqb (rbom r) 0) ->
+  capok (rbw r) (rrd r)
+        (snd (tk start' (patom st (skipn (length (win (rbw r)) - c) (win (rbw r))) ++ rest (rrd r)))) ->
+  stepres input (cap (rbw r))
+        (fst (tk start' (patom st (skipn (length (win (rbw r)) - c) (win (rbw r))) ++ rest (rrd r))))
+        (refill fuel r st c o).
+Proof.
+  induction nrest as [nrest IH] using lt_wf_ind.
+  intros fuel r st c o start' Hrest Hfuel Hrok Hc Hpend Hstart Hcap.
+  destruct fuel as [|f]; [lia|]. destruct r as [b d bom]. cbn [rbw rrd rbom] in *.
+  cbn [refill rbw rrd rbom].
+  replace (Nat.ltb (length (win b)) c) with false by (symmetry; apply Nat.ltb_ge; exact Hc).
+  destruct (refill_fill input b d bom c Hrok Hc) as [Hcb Hfill]. cbv zeta in Hcb, Hfill.
+  remember (skipn (length (win b) - c) (win b)) as cb eqn:Ecbdef. clear Ecbdef.
+  pose proof (pend_need st start' cb o (rest d) Hpend) as Hneed.
+  destruct (bw_fill_buf _ d) as [n b2 d2|b2 d2|b2 d2]; [|contradiction|].
+  2:{ (* a full buffer contradicts the capacity hypothesis *)
+      exfalso. destruct Hcap as [[H0 _]|[H0 H1]]; [lia|].
+      destruct Hneed as [Hn|Hn]; [rewrite Hn in Hcb; cbn in Hcb; lia|lia]. }
+  destruct Hfill as (bs & Hbs & Hsplit & Hw2 & Hcap2 & Hpos2 & Hrok2 & Hzero).
+  destruct n as [|n].
+  - (* end of the stream *)
+    destruct bs; [|discriminate]. rewrite app_nil_r in Hw2. cbn [app] in Hsplit.
+    assert (Hr : rest d = []).
+    { destruct (Hzero eq_refl) as [H0|H0]; [|exact H0]. destruct Hcap as [[_ H1]|[H1 _]]; [exact H1|lia]. }
+    assert (Hr2 : rest d2 = []) by congruence.
+    rewrite Hr, app_nil_r. clear Hneed.
+    destruct st; cbn [pend patom] in *.
+    + (* None *)
+      destruct Hpend as [Hit _]. rewrite tk_unfold. rewrite Hw2.
+      destruct (item start' cb) as [s2 k|t2 s2 k|t2 k|k|k0 k] eqn:Ei; try contradiction.
+      * cbn [fst stepres]. destruct (item_end_cases _ _ _ Ei) as [Hnil|(t & Ht)].
+        -- rewrite Hnil in Hcb. cbn [length] in Hcb. subst c. cbn [Nat.eqb orb].
+           destruct (rok_advance input b2 d2 bom bom 0 (Hrok2 bom) ltac:(lia)) as [Hadv Hr3].
+           rewrite Hadv. eexists. split; [reflexivity|]. split; [exact Hr3|].
+           unfold stream_of. cbn [rbw rrd win with_bw]. rewrite Hw2, Hnil, Hr2. reflexivity.
+        -- rewrite Ht. replace (b_is 35 35) with true by reflexivity. rewrite orb_true_r.
+           destruct (rok_advance input b2 d2 bom bom c (Hrok2 bom) ltac:(rewrite Hw2; lia)) as [Hadv Hr3].
+           rewrite Hadv. eexists. split; [reflexivity|]. split; [exact Hr3|].
+           unfold stream_of. cbn [rbw rrd win with_bw]. rewrite Hw2, Hr2, app_nil_r. apply skipn_all2. lia.
+      * cbn [fst stepres]. subst k0. pose proof (item_eof_nothash _ _ _ _ Ei) as Hh.
+        destruct cb as [|c0 cb']; [contradiction|]. rewrite Hh.
+        replace (Nat.eqb c 0) with false by (symmetry; apply Nat.eqb_neq; cbn [length] in Hcb; lia).
+        cbn [orb]. eexists. split; [reflexivity|]. split; [apply Hrok2|].
+        unfold stream_of. cbn [rbw rrd]. rewrite Hw2, Hr2, app_nil_r. reflexivity.
+    + (* Quote *)
+      destruct Hpend as [-> (Ho & Hres & Hge)]. rewrite tk_unfold, item_quote.
+      destruct (rq_scan cb 0) as [i|o2] eqn:E.
+      * exfalso. pose proof (rq_scan_bounds (length cb) cb 0 i (le_n _) E).
+        specialize (Hge [] i). rewrite app_nil_r in Hge. specialize (Hge E). lia.
+      * cbn [fst stepres]. eexists. split; [reflexivity|]. split; [apply Hrok2|].
+        unfold stream_of. cbn [rbw rrd]. rewrite Hw2, Hr2, app_nil_r. reflexivity.
+    + (* Unquoted *)
+      destruct Hpend as [(Hne & Hfind & Hit) _]. rewrite tk_unfold.
+      destruct (Hit []) as (m & _ & Hm). rewrite app_nil_r in Hm. rewrite Hm. unfold unq_item. rewrite Hfind.
+      cbn [bump_item fst stepres].
+      destruct (rok_advance input b2 d2 bom bom (length (win b2)) (Hrok2 bom) (le_n _)) as [Hadv Hr3].
+      rewrite Hadv. eexists. split; [|split; [exact Hr3|]].
+      * rewrite Hw2. rewrite firstn_all2 by lia. reflexivity.
+      * unfold stream_of. cbn [rbw rrd win with_bw cap]. rewrite skipn_all, Hr2. split; [reflexivity|exact Hcap2].
+  - (* more data arrived *)
+    assert (Hbsne : bs <> []) by (intros ->; discriminate).
+    assert (Hlt : length (rest d2) < nrest).
+    { assert (length (rest d) = length bs + length (rest d2)) by (rewrite Hsplit, app_length; reflexivity). lia. }
+    assert (Hrn : rest d = [] -> rest d2 = []).
+    { intros H0. rewrite H0 in Hsplit. destruct bs; [congruence|discriminate]. }
+    destruct st; cbn [pend patom] in *.
+    + (* None: rescan the window from its start *)
+      cbn [rbw rrd rbom].
+      pose proof (fb_sound (S (S (length (win b2)))) (Nat.eqb (bw_position b2) 0) (win b2) (win b2) 0 bom (rest d2)
+                    eq_refl ltac:(lia) ltac:(destruct (N.eqb bom 0); lia)) as Hfb.
+      rewrite Nat.eqb_refl, andb_true_r in Hfb.
+      assert (Hst : Nat.eqb (bw_position b2) 0 && N.eqb bom 0 = start').
+      { rewrite Hstart by reflexivity. rewrite Hpos2. reflexivity. }
+      rewrite Hst in Hfb.
+      assert (Hstream : cb ++ rest d = win b2 ++ rest d2) by (rewrite Hw2, Hsplit, app_assoc; reflexivity).
+      rewrite Hstream in *.
+      destruct (fb _ _ _ _ _ _) as [a bom'] eqn:Efb. destruct Hfb as [Hb1 Hfb]. cbn [fst snd] in Hb1, Hfb.
+      destruct a as [st' c' o'|t adv|site]; [| |contradiction].
+      * destruct Hfb as (Hc' & Hp' & Hb2 & (m & Hm)).
+        rewrite Hm, fst_bump.
+        replace (cap b) with (cap (rbw (mkreader b2 d2 bom'))) by exact Hcap2.
+        apply (IH (length (rest d2)) Hlt f (mkreader b2 d2 bom') st' c' o'); cbn [rbw rrd rbom].
+        -- lia.
+        -- lia.
+        -- apply Hrok2.
+        -- exact Hc'.
+        -- exact Hp'.
+        -- intros Hs. unfold reader_position. cbn [rbw].
+           destruct (Nat.eqb c' (length (win b2))) eqn:Ec.
+           ++ apply Nat.eqb_eq in Ec. rewrite Ec, Nat.sub_diag, Nat.add_0_r, andb_true_r.
+              destruct start' eqn:Es.
+              ** rewrite (Hb2 Hs eq_refl). symmetry. exact Hst.
+              ** destruct (Nat.eqb (bw_position b2) 0); [|reflexivity]. cbn [andb] in Hst |- *.
+                 rewrite (Hb1 Hst). symmetry. exact Hst.
+           ++ apply Nat.eqb_neq in Ec. rewrite andb_false_r. symmetry.
+              replace (Nat.eqb (bw_position b2 + (length (win b2) - c')) 0) with false; [reflexivity|].
+              symmetry. apply Nat.eqb_neq. lia.
+        -- eapply capok_mono; [exact Hcap|exact Hcap2| |exact Hrn]. rewrite Hm. apply snd_bump.
+      * destruct Hfb as (k & m & Hadv & Hk & Hm). cbn [Nat.add] in Hadv. subst adv.
+        rewrite Hm. cbn [fst stepres]. unfold emit. cbn [rbw].
+        destruct (rok_advance input b2 d2 bom' bom' k (Hrok2 bom') ltac:(lia)) as [Hadv Hr3].
+        rewrite Hadv. eexists. split; [reflexivity|]. split; [exact Hr3|].
+        unfold stream_of. cbn [rbw rrd win with_bw cap]. split; [|exact Hcap2].
+        rewrite skipn_app_le by lia. reflexivity.
+    + (* Quote: resume the scan at offset *)
+      destruct Hpend as [-> (Ho & Hres & Hge)]. cbn [rbw rrd rbom].
+      replace (Nat.ltb (length (win b2)) o) with false by (symmetry; apply Nat.ltb_ge; rewrite Hw2, app_length; lia).
+      assert (Hstream : cb ++ rest d = win b2 ++ rest d2) by (rewrite Hw2, Hsplit, app_assoc; reflexivity).
+      assert (Ho2 : o <= length (win b2)) by (rewrite Hw2, app_length; lia).
+      unfold refill_quote_scan.
+      pose proof (rq_scan_app_gen (length (skipn o (win b2))) (skipn o (win b2)) (rest d2) o (le_n _)) as Hgen.
+      assert (Hall : rq_scan (win b2 ++ rest d2) 0 = rq_scan (skipn o (win b2) ++ rest d2) o).
+      { rewrite <- Hstream, Hres, Hstream, skipn_app_le by lia. reflexivity. }
+      destruct (rq_scan (skipn o (win b2)) o) as [i|o2] eqn:Escan.
+      * pose proof (rq_scan_bounds _ _ _ _ (le_n _) Escan) as Hi. rewrite skipn_length in Hi.
+        cbn [app]. rewrite Hstream. rewrite tk_unfold, item_quote, Hall, Hgen.
+        cbn [fst stepres]. unfold emit. cbn [rbw].
+        destruct (rok_advance input b2 d2 bom bom (S i) (Hrok2 bom) ltac:(lia)) as [Hadv Hr3].
+        rewrite Hadv. eexists. split; [|split; [exact Hr3|]].
+        -- rewrite firstn_app_le by lia. reflexivity.
+        -- unfold stream_of. cbn [rbw rrd win with_bw cap]. split; [|exact Hcap2].
+           rewrite skipn_app_le by lia. reflexivity.
+      * (* still open: carry the whole window, resume where the scan stopped *)
+        destruct Hgen as (j & Hj1 & Hj2 & Hj3). rewrite skipn_length in Hj2.
+        replace (cap b) with (cap (rbw (mkreader b2 d2 bom))) by exact Hcap2.
+        assert (Hpat : (34%N :: cb) ++ rest d = patom PQuote (skipn (length (win b2) - length (win b2)) (win b2)) ++ rest d2).
+        { rewrite Nat.sub_diag. cbn [skipn patom app]. rewrite Hstream. reflexivity. }
+        rewrite Hpat in *.
+        apply (IH (length (rest d2)) Hlt f (mkreader b2 d2 bom) PQuote (length (win b2)) o2); cbn [rbw rrd rbom].
+        -- lia.
+        -- lia.
+        -- apply Hrok2.
+        -- lia.
+        -- rewrite Nat.sub_diag. cbn [skipn pend]. split; [reflexivity|]. split; [lia|]. split.
+           ++ intros y.
+              pose proof (rq_scan_app_gen (length (skipn o (win b2))) (skipn o (win b2)) y o (le_n _)) as Hy.
+              rewrite Escan in Hy. destruct Hy as (j' & Hy1 & Hy2 & Hy3).
+              assert (j' = j) by lia. subst j'.
+              rewrite Hw2, <- app_assoc, Hres, app_assoc, <- Hw2.
+              rewrite skipn_app_le by lia. rewrite Hy3. rewrite <- skipn_app_le by lia.
+              rewrite skipn_skipn. f_equal. f_equal. lia.
+           ++ intros y i Hy.
+              rewrite Hw2, <- app_assoc, Hres, app_assoc, <- Hw2 in Hy. rewrite skipn_app_le in Hy by lia.
+              pose proof (rq_scan_inr_ge _ _ _ _ _ _ (le_n _) Escan Hy) as Hge2. rewrite skipn_length in Hge2. lia.
+        -- discriminate.
+        -- eapply capok_mono; [exact Hcap|exact Hcap2|lia|exact Hrn].
+    + (* Unquoted: resume the boundary scan at the old window length *)
+      destruct Hpend as [(Hne & Hfind & Hit) ->]. cbn [rbw rrd rbom].
+      replace (Nat.ltb (length (win b2)) (length cb)) with false by (symmetry; apply Nat.ltb_ge; rewrite Hw2, app_length; lia).
+      assert (Hstream : cb ++ rest d = win b2 ++ rest d2) by (rewrite Hw2, Hsplit, app_assoc; reflexivity).
+      assert (Hsk : skipn (length cb) (win b2) = bs) by (rewrite Hw2, skipn_app_le, skipn_all by lia; reflexivity).
+      unfold refill_unq_scan. rewrite Hsk.
+      destruct cb as [|a cb'] eqn:Ecb; [congruence|]. rewrite <- Ecb in *.
+      assert (Hfind' : find_from is_boundary cb' 0 = None) by (rewrite Ecb in Hfind; exact Hfind).
+      assert (Hlen : length cb = S (length cb')) by (rewrite Ecb; reflexivity).
+      assert (Htl : forall z, find_from is_boundary (tl (cb ++ z)) 0 = find_from is_boundary z (length cb')).
+      { intros z. rewrite Ecb. cbn [app tl]. rewrite (find_from_none_app _ cb' z 0 Hfind'). reflexivity. }
+      assert (Hsh : forall z, find_from is_boundary z (length cb) = option_map (fun i => i + 1) (find_from is_boundary z (length cb'))).
+      { intros z. rewrite Hlen. replace (S (length cb')) with (length cb' + 1) by lia. apply find_from_shift. }
+      destruct (find_from is_boundary bs (length cb)) as [i|] eqn:Escan.
+      * pose proof (find_from_bounds _ _ _ _ Escan) as Hi.
+        rewrite Hsh in Escan. destruct (find_from is_boundary bs (length cb')) as [i0|] eqn:E0; [|discriminate].
+        cbn [option_map] in Escan. assert (i = S i0) by (inversion Escan; lia). subst i.
+        rewrite tk_unfold. destruct (Hit (rest d)) as (m & _ & Hm). rewrite Hm. unfold unq_item.
+        rewrite Htl, Hsplit, (find_from_some_app _ bs (rest d2) _ _ E0). cbn [bump_item fst stepres].
+        unfold emit. cbn [rbw].
+        destruct (rok_advance input b2 d2 bom bom (S i0) (Hrok2 bom) ltac:(rewrite Hw2, app_length; lia)) as [Hadv Hr3].
+        rewrite Hadv. rewrite <- Hsplit, Hstream. eexists. split; [|split; [exact Hr3|]].
+        -- rewrite firstn_app_le by (rewrite Hw2, app_length; lia). reflexivity.
+        -- unfold stream_of. cbn [rbw rrd win with_bw cap]. split; [|exact Hcap2].
+           rewrite skipn_app_le by (rewrite Hw2, app_length; lia). reflexivity.
+      * rewrite Hsh in Escan. destruct (find_from is_boundary bs (length cb')) as [i0|] eqn:E0; [discriminate|].
+        replace (cap b) with (cap (rbw (mkreader b2 d2 bom))) by exact Hcap2.
+        assert (Hpat : cb ++ rest d = patom PUnq (skipn (length (win b2) - length (win b2)) (win b2)) ++ rest d2).
+        { rewrite Nat.sub_diag. cbn [skipn patom]. exact Hstream. }
+        rewrite Hpat in *.
+        apply (IH (length (rest d2)) Hlt f (mkreader b2 d2 bom) PUnq (length (win b2)) (length (win b2))); cbn [rbw rrd rbom].
+        -- lia.
+        -- lia.
+        -- apply Hrok2.
+        -- lia.
+        -- rewrite Nat.sub_diag. cbn [skipn pend]. split; [|reflexivity]. split; [|split].
+           ++ rewrite Hw2. intros H0. apply app_eq_nil in H0. destruct H0; congruence.
+           ++ rewrite Hw2, Htl. replace (length cb') with (0 + length cb') by lia.
+              rewrite find_from_shift, <- (find_from_shift _ _ 0 (length cb')). cbn [Nat.add]. exact E0.
+           ++ intros y. destruct (Hit (bs ++ y)) as (m & Hm1 & Hm2). exists m.
+              rewrite Hw2, <- app_assoc. split; [rewrite app_length; lia|exact Hm2].
+        -- discriminate.
+        -- eapply capok_mono; [exact Hcap|exact Hcap2|lia|exact Hrn].
 Qed.
